@@ -109,14 +109,14 @@ def run(ctx):
     press = [c for c in cases if c["part"].startswith("press")]      # receiver short of descriptor slots: all
     bad = [c for c in cases if c["part"] == "badhist"]               # rejected packets inside message sequences
     ctx.rng.shuffle(bad)
-    press += bad[:ctx.pick(600, 4000)]
+    press += bad[:ctx.pick(400, 4000)]
     cases = [c for c in cases if not c["part"].startswith("press") and c["part"] != "badhist"]
     if ctx.quick():
         # everything up to 2 operations, a seeded sample of the longer histories
         short = [c for c in cases if len(c["ops"]) <= 3]
         longer = [c for c in cases if len(c["ops"]) > 3]
         ctx.rng.shuffle(longer)
-        cases = short + longer[:1000] + press
+        cases = short + longer[:700] + press
     else:
         pairs = [c for c in cases if c["part"] == "pair"]
         hist = [c for c in cases if c["part"] != "pair"]
